@@ -66,6 +66,16 @@ def run(ctx, pid=PID, sweeps_fn=None, what="grevm's result differs from in-order
                 agg["oracle_mismatch"].append(dict(block_seed="flatblock-%s" % f["kind"], sched_seed=l.split()[0] if l.split() else "?",
                                                    opts=["target/release/flatblock %s %d %d <outdir> <case>" % (f["kind"], ctx.seed, f["cases"])],
                                                    detail=l[:2000]))
+    if pid == "C03":
+        # nonce u64::MAX from a sender at nonce u64::MAX, alone or with an earlier-checked second reason,
+        # half of the runs on a database with an injected fault (finding F11): oracle only - the
+        # acceptor's nonce rule does not model revm's unconditional rejection of that nonce
+        mx, _, _ = sc.run_sweeps(ctx, [("inv-maxn", 35, 600 if ctx.quick else 8000,
+                                        ["txs=2..6", "workers=1,2,3", "strat=mix2", "opts=invalid,shared,multi,maxn", "faults=1"])],
+                                 want_trace=False)
+        agg["cases"] += mx["cases"]
+        agg["oracle_mismatch"] += mx["oracle_mismatch"]
+        agg["driver_failure"] += mx["driver_failure"]
     free = None
     if not ctx.quick:
         # free-threaded volume (oracle only)
